@@ -261,6 +261,10 @@ class MappingStorage:
                 raise ZODB.POSException.ConflictError(
                     oid=oid, serials=(old_tid, serial), data=data)
 
+        # Never hand out an oid that is already in use (the object may
+        # have been stored under an oid that new_oid() did not issue).
+        self._oid = max(self._oid, ZODB.utils.u64(oid))
+
         self._tdata[oid] = data
 
     checkCurrentSerialInTransaction = (
